@@ -98,5 +98,16 @@ PROPS["C18"] = {
     "assumptions": ["TTML: fault offsets up to the end of the root element"],
 }
 
+
+PROPS["C15"] = {
+    "level_text": "Machine-checked Lean theorems (Mathlib, over Q) about the Go expression tree of ApplyLinearCorrection evaluated with any rounding function satisfying the standard model of floating-point arithmetic (monotone, relative error <= 2^-53, exact on integers up to 2^53): for all boundaries and reference points in [0,24 h] and |slope| <= 2 every boundary lands within 3 ns (<< 1 us) of the exact affine map through the two reference points (so a1 -> d1, a2 -> d2 within that bound), the map is monotone for a non-negative slope, every cue length is scaled by the slope to within 6 ns, and identity/content/order are untouched. The executable binary64 model (Go.Float53, round-to-nearest-even in integer arithmetic) is compared bit for bit with the hardware (lib.f53) and ops.lincorr compares the whole operation with the code; on a disagreement the exact rational predicate is evaluated in Lean on the implementation's output.",
+    "level_note": "Partial: it is not proved that Go.Float53 (or the hardware) satisfies FloatModel - IEEE-754 binary64 conformance is assumed; overflow/subnormal ranges are outside the hypotheses. Trusted: Lean kernel + Mathlib (axioms propext, Classical.choice, Quot.sound), the tie.",
+    "technique": "Lean 4 proof over Q of a forward error analysis under the standard floating-point model + bit-for-bit differential correspondence of an exact binary64 model",
+    "props": ["Astisub.Props.C15"],
+    "streams": [{"name": "lib.f53"}, {"name": "ops.lincorr"}],
+    "trust": ["IEEE-754 binary64 round-to-nearest-even satisfies the standard model (FloatModel); Go.Float53 is validated bit for bit against the hardware, not proved to be a FloatModel"],
+    "assumptions": ["boundaries, a1, d1 in [0, 24 h]; a1 != a2; |slope| <= 2"],
+}
+
 NOT_APPLICABLE = {p: "not built yet in this session (work in progress; see DESIGN.md section 11 for the build order)" for p in
-                  ["C01","C02","C03","C04","C05","C06","C07","C08","C15","C19","C20"]}
+                  ["C01","C02","C03","C04","C05","C06","C07","C08","C19","C20"]}
